@@ -95,6 +95,7 @@ class Knobs:
         self.answer_heartbeat = None  # callable(n, t) -> None(no answer) | delay
         self.stride_zone = 8
         self.stride_ac = 10
+        self.stride_timer = 9         # AT5 timer status record length (9 documented + extra)
         self.echo_zero_zones = True   # AT5: echo names / zone status request when no zones
         for k, v in kw.items():
             if not hasattr(self, k):
@@ -271,9 +272,10 @@ class SimConsole:
                     data[8 * ac:8 * ac + 2] = R.timer_bytes(t["on"])
                     data[8 * ac + 2:8 * ac + 4] = R.timer_bytes(t["off"])
             return self.f_std(0x37, bytes(data), pid)
+        st = self.knobs.stride_timer
         recs = [bytes([ac]) + R.timer_bytes(t["on"]) + R.timer_bytes(t["off"]) + b"\0" * 4
-                for ac, t in sorted(tm.items())]
-        return self.f_std(0xC0, R.c0(0x33, 9, recs), pid)
+                + b"\x01" * (st - 9) for ac, t in sorted(tm.items())]
+        return self.f_std(0xC0, R.c0(0x33, st, recs), pid)
 
     def frame_error(self, ac, pid=None):
         return self.f_ext(0xFF10, R.error_body(ac, self.inst["errors"].get(ac)), pid)
